@@ -13,16 +13,16 @@ NOTE = ("Trusted base: go/types, golang.org/x/tools v0.29.0 (go/packages, go/cfg
 CLAIMED = {
 
     "C01": ("static analysis: who-may-write/who-may-call over the type-checked program, lifetime-restricted control-flow views (switch or if-chain), condition-fact dominance in eager creation, key-literal completeness, family fan-out agreement",
-            "Decides the structural conditions singleton-ness rests on for every path and call site: the table has one writer, the singleton clause of resolution cannot construct, constructors run only from three call sites under the right guards, Build returns only after a checked eager creation over the topological order, the graph sees every dependency, nothing memoises outside setInstance. One genuine defect (aliases, D1) is a recorded known finding. Invocation counts and pointer identity are not decided.",
+            "Decides the structural conditions singleton-ness rests on for every path and call site: the table has one writer, the singleton clause of resolution cannot construct, constructors run only from three call sites under the right guards, Build returns only after a checked eager creation over the topological order, the graph sees every dependency, nothing memoises outside setInstance. The function that files a singleton records every output on every success exit (presence means constructed). Two genuine defects (aliases, D1; a nil output among several return values re-runs the constructor, D25) are recorded known findings. Invocation counts and pointer identity are not decided.",
             "DESIGN.md §4 C01"),
     "C02": ("static analysis: who-may-write the scoped cache and isolation of caches, cache-lookup dominance in the scoped clause, must-pass-through of setInstance, initializer-pass counting, atomicity idiom check, lifetime-validation rules",
-            "Decides that the cache is filled only by the Scoped clause, is fresh per scope and reached only through the receiver; that construction happens only on a miss of the resolved key and always passes setInstance; that every scope handed out ran its initializers exactly once; and that no long-lived service can capture a scoped one. The non-atomic miss/fill pair (D2) is a recorded known finding.",
+            "Decides that the cache is filled only by the Scoped clause, is fresh per scope and reached only through the receiver; that construction happens only on a miss of the resolved key and always passes setInstance; that every scope handed out ran its initializers exactly once; and that no long-lived service can capture a scoped one. No error exit of createInstance follows a store (a failed construction leaves no cached sibling). The non-atomic miss/fill pair (D2) is a recorded known finding.",
             "DESIGN.md §4 C02"),
     "C03": ("static analysis: case-region event analysis of the transient clauses, no-store census of resolution entry points, record-confinement (lockset) of invoker/analysis records",
             "Freshness of transients is decided as the absence, on every path, of any cache read or write in the transient clauses, of any memo in the entry points (including group resolution), and of any per-call state in objects shared between invocations.",
             "DESIGN.md §4 C03"),
     "C04": ("static analysis: value-flow of the constructor operand to reflect.Value.Call, identity-carrier checks (Pointer() keys), sibling agreement of the four field walkers and two resolvers, order/loop-shape checks, key-literal completeness",
-            "Decides the structural side of wiring fidelity: which function value is called, that analysis (graph edges, registrations) and runtime walks of a struct agree field by field, that dispatch by group/name/plain has one priority, that order never depends on a map, and that identities are never truncated. Fan-out lookups that ignore name/group (D4) are recorded known findings.",
+            "Decides the structural side of wiring fidelity: which function value is called, that analysis (graph edges, registrations) and runtime walks of a struct agree field by field, that dispatch by group/name/plain has one priority, that order never depends on a map, that identities are never truncated, and that no persistent table is keyed by the printed name of a reflect.Type. Fan-out lookups that ignore name/group (D4) are recorded known findings.",
             "DESIGN.md §4 C04"),
     "C05": ("static analysis: must-pass-through of the validation pipeline before provider allocation, loop-completeness of graph filling and of the cycle search, group-link dominance, cause preservation",
             "Exactness of cycle detection needs every descriptor and every dependency in the graph, group placeholders linked before each search, a search that starts everywhere and follows every edge, and a typed error that survives wrapping; these are decided on all paths. Correctness of the DFS on all graphs is value-level and not decided.",
